@@ -164,17 +164,20 @@ pub trait ParallelIterator: Sized {
     fn map<R, F: Fn(Self::Item) -> R>(self, f: F) -> Map<Self, F> {
         Map { base: self, f }
     }
+    /// as in rayon: one clone of `init` per leaf (split), shared by all items of that leaf
     fn map_with<T: Clone, R, F: Fn(&mut T, Self::Item) -> R>(self, init: T, f: F) -> impl ParallelIterator<Item = R> {
-        // every leaf would get its own clone; per item clone is a legal (finest) split
-        self.map(move |x| {
-            let mut t = init.clone();
-            f(&mut t, x)
-        })
+        self.map_init(move || init.clone(), f)
     }
+    /// as in rayon: `init` runs once per leaf (split); its value is reused for all items of that leaf
     fn map_init<T, R, INIT: Fn() -> T, F: Fn(&mut T, Self::Item) -> R>(self, init: INIT, f: F) -> impl ParallelIterator<Item = R> {
+        let state: RefCell<(u64, Option<T>)> = RefCell::new((u64::MAX, None));
         self.map(move |x| {
-            let mut t = init();
-            f(&mut t, x)
+            let epoch = sim::leaf_epoch();
+            let mut s = state.borrow_mut();
+            if s.0 != epoch || s.1.is_none() {
+                *s = (epoch, Some(init()));
+            }
+            f(s.1.as_mut().unwrap(), x)
         })
     }
     fn filter<P: Fn(&Self::Item) -> bool>(self, p: P) -> impl ParallelIterator<Item = Self::Item> {
